@@ -883,6 +883,7 @@ class Variogram(object):
     def bins(self, bins):
         # set the new bins
         self._bins = np.asarray(bins)
+        self._n_lags = len(self._bins)
 
         # clean the groups as they are not valid anymore
         self._bin_count = None
